@@ -18,6 +18,9 @@ pub enum Fam {
     Sp { name: &'static str, m: usize },
     /// knapsack n items, weights/profits in {1,2,3}, capacity 0..=6 (as a table model with max merge)
     Kp { name: &'static str, n: usize },
+    /// knapsack with profits in {0,1} (many value ties) whose second merge operator returns the FULL capacity: the merged
+    /// state frequently equals an exact kept node of the layer (recycling)
+    Kpz { name: &'static str, n: usize },
 }
 
 fn binom(n: u64, k: u64) -> u64 { if k > n { 0 } else { (0..k).fold(1u64, |a, i| a * (n - i) / (i + 1)) } }
@@ -63,7 +66,7 @@ const NEIGH_C: [i8; 5] = [-1, 0, 1, 2, 3];
 
 impl Fam {
     pub fn name(&self) -> &'static str {
-        match self { Fam::Tm { name, .. } | Fam::TmNeigh { name, .. } | Fam::TmIrr { name, .. } | Fam::Sp { name, .. } | Fam::Kp { name, .. } => name }
+        match self { Fam::Tm { name, .. } | Fam::TmNeigh { name, .. } | Fam::TmIrr { name, .. } | Fam::Sp { name, .. } | Fam::Kp { name, .. } | Fam::Kpz { name, .. } => name }
     }
     fn tm_entries(n: usize, s: usize, nd: usize) -> Vec<(usize, usize, usize)> {
         let mut e = vec![];
@@ -93,6 +96,7 @@ impl Fam {
             }
             Fam::Sp { m, .. } => (1u64 << (m * (m.max(&1) - 1) / 2)) * 3u64.pow(*m as u32),
             Fam::Kp { n, .. } => 9u64.pow(*n as u32) * 7,
+            Fam::Kpz { n, .. } => 6u64.pow(*n as u32) * 7,
         }
     }
     fn dims(&self) -> (usize, usize) {
@@ -219,6 +223,26 @@ impl Fam {
                 var.bonus = false;
                 Tm::new(*n, s, 2, tr, 0, var, name).with_mode(mode).with_root(cap)
             }
+            Fam::Kpz { name, n } => {
+                let mut r = idx;
+                let cap = (r % 7) as usize;
+                r /= 7;
+                let s = cap + 1;
+                let mut tr = vec![vec![vec![None; 2]; s]; *n];
+                for l in 0..*n {
+                    let w = (r % 3) as usize + 1; r /= 3;
+                    let p = (r % 2) as i8; r /= 2;
+                    for c in 0..s {
+                        tr[l][c][0] = Some((c as u8, 0));
+                        if w <= c { tr[l][c][1] = Some(((c - w) as u8, p)); }
+                    }
+                }
+                let mut var = var;
+                if var.dom != Dom::Off { var.dom = Dom::Coord; }
+                let mode = if var.bonus { MergeMode::MaxTop } else { MergeMode::MaxIdx };
+                var.bonus = false;
+                Tm::new(*n, s, 2, tr, 0, var, name).with_mode(mode).with_root(cap)
+            }
             Fam::Sp { .. } => panic!("not a table model"),
         }
     }
@@ -290,6 +314,9 @@ pub fn all_families() -> Vec<Fam> {
         Fam::Kp { name: "KP-2", n: 2 },
         Fam::Kp { name: "KP-3", n: 3 },
         Fam::Kp { name: "KP-4", n: 4 },
+        Fam::Kp { name: "KP-5", n: 5 },
+        Fam::Kpz { name: "KPZ-3", n: 3 },
+        Fam::Kpz { name: "KPZ-4", n: 4 },
     ]
 }
 pub fn family(name: &str) -> Fam {
